@@ -62,6 +62,8 @@ def run_one(ctx, case, cases, meta, tag):
     ctx.count('shuffle', 'yes' if case.get('shuffle') is not None else 'no')
     ctx.count('routed', 'yes' if routed else 'no')
     ctx.count('replica_in_child_plan_not_up', sum(1 for h in case['replicas'] if h in res['child_plan'] and not case['up'][h]))
+    ctx.count('shared_addresses', 'yes' if case['child'].get('addrs') else 'no')
+    ctx.count('prior_shuffling_policy', 'yes' if case.get('prior_shuffle') is not None else 'no')
     ctx.count('source', tag)
     cases.append(coq_case(case, res))
     meta.append(case)
@@ -87,6 +89,9 @@ def run(ctx):
                 'up': [rng.choice([True, True, None, False]) for _ in range(n)],
                 'shuffle': (rng.sample(range(len(reps)), len(reps)) if rng.random() < 0.4 else None),
                 'routed': rng.random() < 0.92, 'keyspace': rng.random() < 0.92}
+        if rng.random() < 0.25 and len(reps) > 1:
+            # another execution profile's TokenAwarePolicy with shuffle_replicas=True shares the Metadata and planned first
+            case['prior_shuffle'] = rng.sample(range(len(reps)), len(reps))
         run_one(ctx, case, cases, meta, 'random')
     # exhaustive small scope: 3 hosts (host 2 in a remote DC), every ordered replica list, every up/unknown/down assignment
     nex = 0
